@@ -119,19 +119,20 @@ def tokenize (line : Bytes) : Line :=
 
 /-! ### input framing: `evbuffer_readln(EVBUFFER_EOL_CRLF)` -/
 
-/-- split off complete lines; returns (lines with raw length, unconsumed tail).
-    A line ends at '\n'; one '\r' directly before it is dropped. -/
-def splitLines (buf : Bytes) : List Bytes × Bytes :=
-  let rec go (cur : Bytes) (acc : List Bytes) : Bytes → List Bytes × Bytes
-    | [] => (acc.reverse, cur.reverse)
-    | c :: cs =>
-      if c == 10 then
-        let l := match cur with
+/-- one byte into the line assembler: `cur` is the current partial line (reversed), `acc` the
+    complete lines so far (latest first).  A line ends at '\n'; one '\r' directly before it is
+    dropped. -/
+def lineStep (st : Bytes × List Bytes) (c : UInt8) : Bytes × List Bytes :=
+  if c == 10 then
+    ([], (match st.1 with
           | 13 :: t => t.reverse
-          | _ => cur.reverse
-        go [] (l :: acc) cs
-      else go (c :: cur) acc cs
-  go [] [] buf
+          | _ => st.1.reverse) :: st.2)
+  else (c :: st.1, st.2)
+
+/-- split off complete lines; returns (lines, unconsumed tail) -/
+def splitLines (buf : Bytes) : List Bytes × Bytes :=
+  let st := buf.foldl lineStep ([], [])
+  (st.2.reverse, st.1.reverse)
 
 /-! ### fnmatch(pattern, string, 0) for `*`, `?`, `\c` and literals -/
 
